@@ -104,7 +104,9 @@ fi
 printf 'y2' > y2.out
 if [ -e "$VMARK/fail-y-noout" ]; then rm -f y.out; echo "end $GROG_TARGET" >> "$VTRACE"; exit 0; fi
 printf 'y(%s,%s)' "$(cat x.out)" "$(cat y.in)" > y.out
-echo "end $GROG_TARGET" >> "$VTRACE"`
+echo "end $GROG_TARGET" >> "$VTRACE"
+# the LAST statement: an AND-OR list whose failing element is not the last one (set -e does not act on it, the exit status is 1)
+[ ! -e "$VMARK/fail-y-last" ] || { test -e "$VMARK/never-there" && true; }`
 	// the timeout is only declared while the timeout failure is armed: a short timeout on a
 	// normally running command would make the check depend on machine load
 	yTimeout := ""
@@ -134,6 +136,9 @@ echo "end $GROG_TARGET" >> "$VTRACE"`})
 		}
 		s.Toml = "num_workers = 1\n"
 	}
+	// g: a step that produces nothing and is tagged no-cache (a "notify" / "deploy" target): it runs in every build
+	s.Targets = append(s.Targets, hist.Target{Pkg: "p", Name: "g", Tags: []string{"no-cache"}, Command: traceStart + `
+echo "end $GROG_TARGET" >> "$VTRACE"`})
 	// w: its postcondition is an external condition ($VMARK/version must read 1),
 	// which its command establishes unless w-broken is set
 	wCmd := traceStart + `
@@ -150,7 +155,7 @@ echo "end $GROG_TARGET" >> "$VTRACE"`
 }
 
 // chainTargets in topological order
-var chainTargets = []string{"x", "y", "z", "d", "e", "w"}
+var chainTargets = []string{"x", "y", "z", "d", "e", "w", "g"}
 
 type chainOp struct {
 	Name string
@@ -309,7 +314,7 @@ func (e *chainEngine) predict(st chainState, m *chainModel, cacheDisabled bool) 
 			continue
 		}
 		k := keyOf(t)
-		noCacheTag := st.NoCachePos == t
+		noCacheTag := st.NoCachePos == t || t == "g"
 		checkFails := t == "w" && after.Marks["w-destroyed"]
 		must := m.Cache[k] == "" || m.Taint[t] || noCacheTag || cacheDisabled || checkFails
 		switch {
@@ -329,7 +334,7 @@ func (e *chainEngine) predict(st chainState, m *chainModel, cacheDisabled bool) 
 		case "x":
 			fails = st.Marks["fail-x-exit"]
 		case "y":
-			fails = st.Marks["fail-y-exit"] || st.Marks["fail-y-timeout"] || st.Marks["fail-y-noout"] || st.Marks["fail-y-mid"]
+			fails = st.Marks["fail-y-exit"] || st.Marks["fail-y-timeout"] || st.Marks["fail-y-noout"] || st.Marks["fail-y-mid"] || st.Marks["fail-y-last"]
 		case "d":
 			fails = st.Marks["fail-d-nodir"]
 		case "w":
@@ -520,7 +525,7 @@ func (e *chainEngine) doOp(n *cnode, op chainOp) *cnode {
 		switch {
 		case model.Taint[t] || n.model.Taint[t]:
 			k = "tainted"
-		case n.st.NoCachePos == t:
+		case n.st.NoCachePos == t || t == "g":
 			k = "no-cache-tag"
 		case cacheDisabled:
 			k = "cache-disabled"
@@ -891,7 +896,7 @@ func markOp(m string) chainOp { return chainOp{Name: "mark " + m, Kind: "mark", 
 
 func init() {
 	Registry["C13"] = func(c *Ctx) {
-		c.R.Rule = "breadth-first search over histories of <= n operations from {edit (output of x unchanged), edit (output changes), grog taint //p:x | //p:y | //p/..., grog build, grog build --enable-cache=false, grog build with the taint-clearing goroutine delayed} on a 4-target workspace (chain x->y->z plus w) by the REAL binary, in three universes (no-cache tag on nobody / x / y); after every build the executed set (trace written by the commands) is compared with a reference model of the documented rules: tainted => executed once, then clean; no-cache => executed in every build; cache disabled => everything executes; dependants re-execute only if the re-executed target's output bytes changed. A second search (one operation deeper) combines grog taint with an edit of the tainted target's own input (the taint is consumed by the execution the edit causes) and with executions that fail (non-zero exit; exit 0 without the declared output; thorough: failing output check): a failed execution does not consume the taint. Taint isolation: 9 targets whose labels differ only in where / : _ - . sit, everything cached; every ordered pair (taint X; build Y: nothing runs; build X: exactly X runs; build X: nothing; build //...: nothing) and every unordered pair (taint both; build //...: exactly both; again: nothing). Non-trivial = a build that executed some but not all targets."
+		c.R.Rule = "breadth-first search over histories of <= n operations from {edit (output of x unchanged), edit (output changes), grog taint //p:x | //p:y | //p/..., grog build, grog build --enable-cache=false, grog build with the taint-clearing goroutine delayed} on the chain workspace (x->y->z, x->d->e, w with output checks, and g: no outputs, always tagged no-cache) by the REAL binary, in three universes (no-cache tag on nobody / x / y); after every build the executed set (trace written by the commands) is compared with a reference model of the documented rules: tainted => executed once, then clean; no-cache => executed in every build; cache disabled => everything executes; dependants re-execute only if the re-executed target's output bytes changed. A second search (one operation deeper) combines grog taint with an edit of the tainted target's own input (the taint is consumed by the execution the edit causes) and with executions that fail (non-zero exit; exit 0 without the declared output; thorough: failing output check): a failed execution does not consume the taint. Taint isolation: 9 targets whose labels differ only in where / : _ - . sit, everything cached; every ordered pair (taint X; build Y: nothing runs; build X: exactly X runs; build X: nothing; build //...: nothing) and every unordered pair (taint both; build //...: exactly both; again: nothing). Non-trivial = a build that executed some but not all targets."
 		c.R.Assume("after a build with the cache disabled (or of a no-cache target) the model makes no prediction for the affected states until they were built normally again (the documentation does not specify it)", "the detached goroutine that clears a taint has two schedules (before / after process exit): the adverse one is forced by delaying TaintCache.Clear by 1.5 s (a slow cache backend; grog idles about 0.5 s before exiting) in a second binary built through the overlay")
 		chainCheck("C13", []string{"C13:"}, 4, 5, func(e *chainEngine, thorough bool) {
 			e.noCache = []string{"", "x", "y"}
@@ -901,6 +906,13 @@ func init() {
 			}
 		})(c)
 		c13TaintIsolation(c)
+		// third pass: the output-less no-cache target //p:g (and the universes' tagged targets) under load_outputs=minimal
+		chainCheck("C13", []string{"C13:"}, 3, 4, func(e *chainEngine, thorough bool) {
+			e.universes = []chainState{{Minimal: true}}
+			e.noCache = []string{"", "y"}
+			e.ops = []chainOp{opEditFirst, opBuild}
+		})(c)
+		c13NoCacheTool(c)
 		// second pass: taints x failing executions (the taint is consumed by a SUCCESSFUL execution only)
 		chainCheck("C13", []string{"C13:", "C05:failed-target-not-attempted-again"}, 5, 6, func(e *chainEngine, thorough bool) {
 			e.ops = []chainOp{opTaintY, markOp("fail-y-noout"), markOp("fail-y-exit"), opEditY, opBuild}
@@ -915,6 +927,7 @@ func init() {
 		chainCheck("C14", []string{"C14:", "C05:failed-target-not-attempted-again", "C04:build-hangs"}, 5, 6, func(e *chainEngine, thorough bool) {
 			e.universes = []chainState{{}, {Minimal: true}}
 			e.ops = []chainOp{markOp("w-destroyed"), markOp("w-broken"), markOp("w-self-destroy"), markOp("fail-y-exit"), markOp("fail-y-noout"), markOp("fail-y-timeout"), markOp("fail-d-nodir"), opEditFirst, opBuild}
+			e.ops = append(e.ops, markOp("fail-y-last"))
 			if thorough {
 				e.ops = append(e.ops, markOp("fail-y-mid"))
 			}
